@@ -89,6 +89,10 @@ def prepare(uni, op):
         return thunk, unchanged
     if k == "codec_cmp":
         return prepare_codec_cmp(uni, op)
+    if k == "agree":
+        return prepare_agree(uni, op)
+    if k == "schema":
+        return prepare_schema(uni, op)
     raise ValueError(k)
 
 
@@ -176,7 +180,7 @@ def exec_single(uni, op, tr):
 
 
 def op_core(op):
-    return {k: v for k, v in op.items() if k not in ("abort_at", "bad", "note")}
+    return {k: v for k, v in op.items() if k not in ("abort_at", "bad", "note", "via")}
 
 
 def classify(got, ref):
@@ -285,7 +289,7 @@ class Execution:
             return False
         if faulted:
             return True
-        ref = self.reference(self.sut.nchunks, op)
+        ref = out if op.get("noref") else self.reference(self.sut.nchunks, op)
         if not U.same(out, ref):
             self.violation = {"class": classify(out, ref), "op_index": idx, "sub": sub,
                               "op": op, "got": out, "ref": ref,
@@ -407,3 +411,164 @@ class Execution:
 def hash_json(x):
     import zlib
     return zlib.crc32(json.dumps(x, sort_keys=True).encode())
+
+
+# --------------------------------------------------------------------------
+# C15: all entry points for one (type, value)
+# --------------------------------------------------------------------------
+
+def _persistent(uni, key, factory):
+    c = uni.codecs.get(key)
+    if c is None:
+        c = factory()
+        uni.codecs[key] = c
+    return c
+
+
+def prepare_agree(uni, op):
+    import typing
+    mod = uni.mod
+    fmt = op.get("fmt", "basic")
+    enc_cls, dec_cls, enc_fn, dec_fn = _codec_classes(fmt)
+    D = getattr(mod, op["cls"])
+    cname = op["cls"]
+    is_mixin = uni.fam.is_mixin(cname)
+    shapes = {
+        "list": typing.List[D],
+        "dict": typing.Dict[str, D],
+        "opt": typing.Optional[D],
+        "tuple": typing.Tuple[D, int],
+    }
+    meth = {"basic": ("to_dict", "from_dict"), "json": ("to_json", "from_json"),
+            "orjson": ("to_jsonb", "from_json"), "msgpack": ("to_msgpack", "from_msgpack"),
+            "yaml": ("to_yaml", "from_yaml")}[fmt]
+    mixin_for_fmt = {"basic": None, "json": "JSON", "orjson": "ORJSON", "msgpack": "MsgPack",
+                     "yaml": "YAML"}[fmt]
+    has_method = is_mixin and (mixin_for_fmt is None or mixin_for_fmt in uni.fam.mixins(cname))
+
+    def side(fn):
+        try:
+            return ["ok", fn()]
+        except Exception as e:  # noqa
+            return ["exc", type(e).__name__]
+
+    if op["dir"] == "enc":
+        obj = uni.value(op["val"])
+        before = U.canon(obj)
+        outer = uni.value(op["outer_val"]) if op.get("outer_val") else None
+
+        def post(x):
+            return norm_doc(parse_encoded(fmt, x))
+
+        def thunk():
+            res = {}
+            if has_method:
+                res["mixin"] = side(lambda: post(getattr(obj, meth[0])()))
+            res["encoder"] = side(lambda: post(_persistent(
+                uni, f"enc:{fmt}:{cname}", lambda: enc_cls(D)).encode(obj)))
+            res["oneshot"] = side(lambda: post(enc_fn(obj, D)))
+            res["list"] = side(lambda: post(_persistent(
+                uni, f"enc:{fmt}:list:{cname}", lambda: enc_cls(shapes["list"])).encode([obj]))[0])
+            res["dict"] = side(lambda: post(_persistent(
+                uni, f"enc:{fmt}:dict:{cname}", lambda: enc_cls(shapes["dict"])).encode({"k": obj}))["k"])
+            if fmt != "yaml":
+                res["opt"] = side(lambda: post(_persistent(
+                    uni, f"enc:{fmt}:opt:{cname}", lambda: enc_cls(shapes["opt"])).encode(obj)))
+                res["tuple"] = side(lambda: post(_persistent(
+                    uni, f"enc:{fmt}:tuple:{cname}", lambda: enc_cls(shapes["tuple"])).encode((obj, 1)))[0])
+            if outer is not None and fmt == "basic":
+                def via_outer():
+                    d = outer.to_dict()
+                    for k in op["outer_keys"]:
+                        if k in d:
+                            return norm_doc(d[k])
+                    raise KeyError(op["outer_keys"][0])
+                r_outer = side(via_outer)
+                if r_outer[0] == "ok":
+                    # a failing outer class cannot be attributed to this field
+                    res["outer"] = r_outer
+            return res
+        return thunk, (lambda: U.same(U.canon(obj), before))
+    doc = op["inp"]
+
+    def enc_doc(x):
+        return U.encode_input("decode_" + fmt, x)
+
+    def thunk():
+        res = {}
+        if has_method:
+            res["mixin"] = side(lambda: U.canon(getattr(D, meth[1])(enc_doc(doc))))
+        res["decoder"] = side(lambda: U.canon(_persistent(
+            uni, f"dec:{fmt}:{cname}", lambda: dec_cls(D)).decode(enc_doc(doc))))
+        res["oneshot"] = side(lambda: U.canon(dec_fn(enc_doc(doc), D)))
+        res["list"] = side(lambda: U.canon(_persistent(
+            uni, f"dec:{fmt}:list:{cname}", lambda: dec_cls(shapes["list"])).decode(enc_doc([doc]))[0]))
+        res["dict"] = side(lambda: U.canon(_persistent(
+            uni, f"dec:{fmt}:dict:{cname}", lambda: dec_cls(shapes["dict"])).decode(enc_doc({"k": doc}))["k"]))
+        res["tuple"] = side(lambda: U.canon(_persistent(
+            uni, f"dec:{fmt}:tuple:{cname}", lambda: dec_cls(shapes["tuple"])).decode(enc_doc([doc, 1]))[0]))
+        if (op.get("outer_inp") is not None and fmt == "basic"
+                and op["outer_cls"] in uni.fam.classes
+                and any(f["n"] == op["outer_field"] for f in uni.fam.all_fields(op["outer_cls"]))
+                and hasattr(mod, op["outer_cls"])):
+            O = getattr(mod, op["outer_cls"])
+            try:
+                res["outer"] = ["ok", U.canon(getattr(
+                    O.from_dict(copy.deepcopy(op["outer_inp"])), op["outer_field"]))]
+            except Exception as e:  # noqa
+                # only a failure of *this* field says something about this type
+                if getattr(e, "field_name", None) == op["outer_field"]:
+                    res["outer"] = ["exc", type(e).__name__]
+        return res
+    return thunk, (lambda: True)
+
+
+
+# --------------------------------------------------------------------------
+# C20: JSON Schema builders
+# --------------------------------------------------------------------------
+
+def make_schema_builder(params):
+    from mashumaro.jsonschema import JSONSchemaBuilder
+    from mashumaro.jsonschema.dialects import DRAFT_2020_12, OPEN_API_3_1
+    kw = {"dialect": OPEN_API_3_1 if params.get("dialect") == "openapi" else DRAFT_2020_12}
+    if params.get("all_refs") is not None:
+        kw["all_refs"] = params["all_refs"]
+    if params.get("ref_prefix") is not None:
+        kw["ref_prefix"] = params["ref_prefix"]
+    return JSONSchemaBuilder(**kw)
+
+
+def prepare_schema(uni, op):
+    from mashumaro.jsonschema.models import JSONSchema
+    key = f"builder:{op['b']}"
+
+    def snapshot(builder):
+        return {k: v.to_dict() for k, v in builder.context.definitions.items()}
+
+    def thunk():
+        b = uni.codecs.get(key)
+        if b is None:
+            b = make_schema_builder(op["params"])
+            uni.codecs[key] = b
+        state = {"builder": b, "before": snapshot(b), "params": op["params"]}
+        uni.schema_state = state
+        if op["what"] == "defs":
+            d = b.get_definitions().to_dict()
+            state["after"] = snapshot(b)
+            return {"definitions": sorted(d) if isinstance(d, dict) else d}
+        T_ = uni.typ(op["type"])
+        try:
+            s = b.build(T_)
+        except NotImplementedError:
+            state["after"] = snapshot(b)
+            state["error"] = "NotImplementedError"
+            return {"error": "NotImplementedError"}
+        finally:
+            state["after"] = snapshot(b)
+        sd = s.to_dict()
+        state["schema"] = sd
+        rt = JSONSchema.from_dict(sd).to_dict()
+        state["roundtrip"] = rt
+        return {"schema": sd, "roundtrip_equal": rt == sd}
+    return thunk, (lambda: True)
